@@ -20,7 +20,16 @@ def main(argv):
         boot.boot()
         prop, wname, tier, idx = argv[1], argv[2], argv[3], argv[4]
         out = {}
+        from .core import run_seed, rng_for, jdump
+        import hashlib
+        w = batch.world(wname)
         for i in [int(x) for x in idx.split(",") if x]:
+            if getattr(w, "DETERMINISM", "full") == "plan":
+                seed = run_seed(boot.master_seed(), prop, wname, i)
+                plan = w.generate(rng_for(seed), (prop,), tier)
+                plan["run_seed"], plan["index"] = seed, i
+                out[str(i)] = "plan:" + hashlib.sha256(jdump(plan).encode()).hexdigest()
+                continue
             plan, ctx = batch._one(wname, prop, boot.master_seed(), i, tier)
             out[str(i)] = ctx.digest()
         print(json.dumps(out))
